@@ -135,6 +135,9 @@ def own2(ctx: Ctx, eng) -> None:
         for kw in ctor.keywords:
             if kw.arg:
                 supplied[kw.arg] = kw.value
+        if any(kw.arg is None for kw in ctor.keywords) or any(isinstance(a, ast.Starred) for a in ctor.args):
+            ctx.undetermined("OWN2", f"{cls}.copy: field coverage", "the constructor is called with * / ** arguments: which fields are supplied is decided at run time, not judged")
+            continue
         for prm, attr in sp.items():
             n_fields += 1
             inst = f"{cls}.copy: field {attr}"
